@@ -389,7 +389,7 @@ impl Check for C10 {
     }
 
     fn shard(&self, ctx: &mut ShardCtx) {
-        ctx.max_shrink_iters = 250; // every evaluation runs several renderings / subprocesses
+        ctx.max_shrink_iters = 100; // every evaluation runs several renderings / subprocesses
         let n = ctx.tier.pick(600, 10_000);
         let rename = || prop_oneof![1 => Just(0u64), 1 => 1u64..u64::MAX];
         let plain = (tape_strategy(500), tape_strategy(600), rename())
